@@ -555,6 +555,9 @@ type w4File struct {
 type w4Tree struct {
 	Files      []w4File `json:"files"`
 	MissingDir string   `json:"missing_dir,omitempty"`
+	// LinkedDir: this configuration directory is a symbolic link to a directory kept elsewhere (dotfiles): neither
+	// missing nor unreadable, so its files count
+	LinkedDir string `json:"linked_dir,omitempty"`
 	DirFault   string   `json:"dir_fault,omitempty"` // directory that cannot be read
 	// how: "" = listing it fails with EACCES; "stat-eacces" / "stat-eio" = already its lstat fails (the walk is then
 	// handed an error without a FileInfo, and the error is not "does not exist")
@@ -602,7 +605,9 @@ func runW4C12(t *testing.T, job *Job, seed uint64, rp *Replay) RunOut {
 				tr.Files[i].Link = true
 			}
 		}
-		switch r.Pick(8, 1, 1) {
+		switch r.Pick(8, 1, 1, 1) {
+		case 3:
+			tr.LinkedDir = fourDirs[r.Intn(4)]
 		case 1:
 			tr.MissingDir = fourDirs[r.Intn(4)]
 		case 2:
@@ -652,10 +657,19 @@ func runW4C12(t *testing.T, job *Job, seed uint64, rp *Replay) RunOut {
 	missing := func(p string) bool {
 		return tr.MissingDir != "" && (p == tr.MissingDir || strings.HasPrefix(p, tr.MissingDir+"/"))
 	}
+	// the files of a linked directory live at the real place
+	linkedReal := "/home/user/dotfiles/hidi-dirs/" + strings.ReplaceAll(tr.LinkedDir, "/", "_")
+	at := func(dir string) string {
+		if tr.LinkedDir != "" && (dir == tr.LinkedDir || strings.HasPrefix(dir, tr.LinkedDir+"/")) {
+			return linkedReal + strings.TrimPrefix(dir, tr.LinkedDir)
+		}
+		return dir
+	}
 	for i, f := range tr.Files {
 		if missing(f.Dir) {
 			continue
 		}
+		f.Dir = at(f.Dir)
 		if f.Link {
 			// the user keeps the file elsewhere and links it into the configuration directory
 			target := fmt.Sprintf("/home/user/dotfiles/hidi/%d-%s", i, f.Name)
@@ -673,6 +687,12 @@ func runW4C12(t *testing.T, job *Job, seed uint64, rp *Replay) RunOut {
 	if tr.MissingDir != "" {
 		fsys.Delete(tr.MissingDir)
 		ro.Faults["missing_directory"]++
+	}
+	if tr.LinkedDir != "" {
+		fsys.Delete(tr.LinkedDir)
+		fsys.PutDir(linkedReal)
+		fsys.PutSymlink(tr.LinkedDir, linkedReal)
+		ro.Faults["symlinked_directory"]++
 	}
 	if tr.DirFault != "" {
 		switch tr.DirFaultHow {
